@@ -1,5 +1,7 @@
 import PydraModel.JobProto.C35Run
 import PydraModel.JobProto.C35Async
+import PydraModel.JobProto.C35RunX
+import PydraModel.JobProto.C35AsyncX
 /-
 C35 — Job lifecycle leaves the process and cache directory consistent (DESIGN §6 C35, engine JobProto §5.4).
 
@@ -11,6 +13,10 @@ FULL STATEMENT (not provable on the current tree — D20): `C35_full_statement`.
   exception, cached or not, rerun or not), from every initial world.
 * `C35_partial` / `_async`: an exception (any kind) injected at any position INSIDE the `try:` body, in every
   initial world, with any task behaviour.
+* `C35_safe` (+`_async`) and `C35_exact` (+`_async`): the positions at which an injected exception breaks the
+  postcondition are EXACTLY the D20 positions (between writing the info file and `try:`, and inside `finally:` up
+  to `os.chdir(cwd)`); at every other position — pre-lock hook, try body, except handler, after the restore — the
+  postcondition holds from every initial world.
 * `C35_witness_pre` / `C35_witness_post` (+ `_async`): a raising `pre_run_task` hook (called before the `try:`)
   or `post_run_task` hook (first statement of `finally:`) leaves the info file behind and (Job.run) the
   working directory changed; `C35_full_fails`.
@@ -88,6 +94,63 @@ theorem C35_full_fails : ¬ C35_full_statement := by
     C35_witness_pre.2.2.1
   rw [hw.2.1] at h2
   cases h2
+
+/-! ### The exact set of positions (C35_exact) -/
+
+/-- an exception injected at ANY position that is not a D20 position — the pre-lock hook, everything up to and
+    including the writing of the info file, the `try:` body, the `except` handler, everything after the working
+    directory has been restored — leaves the lifecycle consistent, from every initial world -/
+theorem C35_safe (w0 : World) (h0 : w0.core.Initial) (env : Env) (h1 : env.auditChdir = auditStartChdir)
+    (i : Nat) (hi : i ∈ jobRun.safePositions) (base : Bool) :
+    LifecycleOK w0 (exec jobRun env (.raiseAt i base) w0) :=
+  lifecycle_of_check jobRun auditStartChdir (.raiseAt i base)
+    (fun c0 hc0 env henv =>
+      lifecycleAt_safe_of_parts jobRun auditStartChdir CheckRun.tryBody CheckRunX.extra i hi c0 hc0 env henv base
+        (by cases base <;> simp)) w0 h0 env h1
+
+theorem C35_safe_async (w0 : World) (h0 : w0.core.Initial) (env : Env) (h1 : env.auditChdir = auditStartChdir)
+    (i : Nat) (hi : i ∈ jobRunAsync.safePositions) (base : Bool) :
+    LifecycleOK w0 (exec jobRunAsync env (.raiseAt i base) w0) :=
+  lifecycle_of_check jobRunAsync auditStartChdir (.raiseAt i base)
+    (fun c0 hc0 env henv =>
+      lifecycleAt_safe_of_parts jobRunAsync auditStartChdir CheckAsync.tryBody CheckAsyncX.extra i hi c0 hc0 env henv base
+        (by cases base <;> simp)) w0 h0 env h1
+
+/-- C35_exact: over the positions of the generated skeleton, the lifecycle postcondition survives an injected
+    exception (in every representative world, for every task behaviour and exception kind) IF AND ONLY IF the
+    position is not one of the D20 positions — the statements between writing the info file and `try:`, and the
+    statements of `finally:` up to `os.chdir(cwd)` -/
+theorem C35_exact : ∀ i ∈ positions jobRun,
+    (LifecycleAt jobRun auditStartChdir i ↔ i ∉ jobRun.d20Positions) := by
+  intro i hi
+  constructor
+  · intro hL hd
+    have hbad := CheckRunX.d20Fails i hd
+    exact hbad (hL Core.fresh (by decide) ⟨false, true, none, auditStartChdir⟩ (by decide) false (by decide))
+  · intro hnd
+    rcases mem_safe_or_d20 jobRun i hi with h | h
+    · exact lifecycleAt_safe_of_parts jobRun auditStartChdir CheckRun.tryBody CheckRunX.extra i h
+    · exact absurd h hnd
+
+theorem C35_exact_async : ∀ i ∈ positions jobRunAsync,
+    (LifecycleAt jobRunAsync auditStartChdir i ↔ i ∉ jobRunAsync.d20Positions) := by
+  intro i hi
+  constructor
+  · intro hL hd
+    have hbad := CheckAsyncX.d20Fails i hd
+    exact hbad (hL Core.fresh (by decide) ⟨false, true, none, auditStartChdir⟩ (by decide) false (by decide))
+  · intro hnd
+    rcases mem_safe_or_d20 jobRunAsync i hi with h | h
+    · exact lifecycleAt_safe_of_parts jobRunAsync auditStartChdir CheckAsync.tryBody CheckAsyncX.extra i h
+    · exact absurd h hnd
+
+/-- the D20 positions are where the raising hooks of the witnesses sit; the hooks before the lock and after it,
+    the try body and the handler are safe -/
+example : jobRun.flatten.idxOf .hookPreRunTask ∈ jobRun.d20Positions ∧
+    jobRun.flatten.idxOf .hookPostRunTask ∈ jobRun.d20Positions ∧
+    jobRun.flatten.idxOf .hookPreRun ∈ jobRun.safePositions ∧ jobRun.flatten.idxOf .hookPostRun ∈ jobRun.safePositions ∧
+    jobRun.flatten.idxOf .body ∈ jobRun.safePositions ∧ jobRun.flatten.idxOf .recordError ∈ jobRun.safePositions := by
+  decide
 
 /-! ### Hooks -/
 
